@@ -1,5 +1,5 @@
 SPECIFICATION Spec
-CONSTANTS CmaxI = 0  EminNeg = 6176  Emax = 6111  Depth = 10  NReg = 3
+CONSTANTS CmaxI = 0  EminNeg = 6176  Emax = 6111  Depth = 14  NReg = 3
 INVARIANTS TypeOK RegistersAreMembers Emit
 PROPERTY C20_ModeOnlyBySet
 CHECK_DEADLOCK FALSE
